@@ -464,7 +464,7 @@ func (h *hostEnd) Read(p []byte) (int, error) {
 	if e := h.end.Load(); e != nil {
 		return e.Read(p)
 	}
-	return 0, io.ErrClosedPipe
+	return 0, io.EOF // the only error that ends the library's decoder loop for good
 }
 
 func (h *hostEnd) Write(p []byte) (int, error) {
@@ -577,6 +577,7 @@ func execC14(t *testing.T, prop string, raw json.RawMessage, trace bool) core.Ou
 			simnet.Use(nil)
 		}
 		core.WaitAll(time.Minute, all...)
+		time.Sleep(time.Minute) // the library's goroutines see the closed streams and wind down
 		// The listener goroutine of a closed TNC waits for somebody to take its
 		// last error; take it so that it can end.
 		var drains []*core.GoResult
